@@ -134,6 +134,8 @@ class PyFormatter(Formatter):
         return f"{factory}()"
 
     def format_default_value_enum(self, t: Enum) -> str:
+        if not t.fields():
+            return "0"  # An enum without members
         return f"{self.format_type(t)}.{self.format_enum_field_name(t.fields()[0])}"
 
     def format_default_value_array(self, t: Array) -> str:
